@@ -916,8 +916,14 @@ class ANF:
     def bind_keywords(self, fn, args, kw):
         """keyword arguments of a call to a known signature become positional (defaults that are constants are filled in
         between), so `get_lookup(net, pit_type="node", lookup_type="index")` is `get_lookup(net, "node", "index")`"""
-        if not kw or any(k == "**" for k, _ in kw) or any(isinstance(a, tuple) and a and a[0] == "star" for a in args):
+        if not kw or all(k == "**" for k, _ in kw) or any(isinstance(a, tuple) and a and a[0] == "star" for a in args):
             return args, kw
+        passthrough = tuple((k, v) for k, v in kw if k == "**")      # **kwargs is passed on as it is
+        kw = tuple((k, v) for k, v in kw if k != "**")
+        args, kw = self._bind_named(fn, args, kw)
+        return args, tuple(sorted(tuple(kw) + passthrough))
+
+    def _bind_named(self, fn, args, kw):
         names, defaults = None, {}
         if fn[0] == "f":
             try:
